@@ -66,6 +66,21 @@ type Grammar struct {
 	Note     string     `json:"note,omitempty"`
 }
 
+// IsEOFAlias: a named token declared with the number -1 is an alias of the end
+// marker (as `%token EOF -1` in the repository's examples): it gets a constant
+// but is no grammar symbol of its own and never appears in a rule.
+func (t Token) IsEOFAlias() bool { return t.Name != "" && t.Num == -1 }
+
+// EOFAlias returns the index of the end-marker alias token, or -1.
+func (g *Grammar) EOFAlias() int {
+	for i, t := range g.Tokens {
+		if t.IsEOFAlias() {
+			return i
+		}
+	}
+	return -1
+}
+
 // YName is the name yaccgo gives the token internally.
 func (t Token) YName() string {
 	if t.Name != "" {
